@@ -73,8 +73,18 @@ class C17(Check):
                 else:
                     skipped = next((c for c, _ in st.conds if key in c), "a condition")
             loop = next((l for l in ast.walk(cg) if isinstance(l, ast.For) and norm(l.iter).startswith(src)), cg)
-            if iterated == 0:
-                self.violated("U8", MOD, "_codegen", f"keeps-every {kind}", cg, f"the {kind} of the transformed document are never walked: they are missing from the imported model")
+            comps = [(c, g) for c in ast.walk(cg) if isinstance(c, (ast.DictComp, ast.ListComp, ast.GeneratorExp)) for g in c.generators if norm(g.iter).startswith(src)]
+            if iterated == 0 and comps:
+                c, g = comps[0]
+                key_ok = not isinstance(c, ast.DictComp) or (isinstance(g.target, ast.Tuple) and norm(c.key) == norm(g.target.elts[0]))
+                if g.ifs or not key_ok:
+                    self.violated("U8", MOD, "_codegen", f"keeps-every {kind}", c, f"the comprehension over {src} " + (f"filters by `{norm(g.ifs[0])[:60]}`" if g.ifs else "does not keep the entries' own keys")
+                                  + ": quantities of the document are missing from the imported model",
+                                  witness="a document with an assignment rule `adenylate_conc := ATP + ADP` that nothing else refers to: the imported model has no such quantity")
+                else:
+                    self.holds("U8", MOD, "_codegen", f"keeps-every {kind}", c, f"an unfiltered comprehension over {src} keeps every entry under its own key")
+            elif iterated == 0:
+                self.undecided_ob("U8", MOD, "_codegen", f"keeps-every {kind}", cg, f"where the {kind} of the transformed document are walked was not found")
             elif stored == iterated:
                 self.holds("U8", MOD, "_codegen", f"keeps-every {kind}", loop, f"every iteration stores sym.{kind}[key]")
             else:
